@@ -196,6 +196,7 @@ ORACLE_TEXT = {
     "cancelstress": "4000 runs per case with cancellation after 0-400 us: a successful result is the complete one",
     "conc": "K in {2,8,32} concurrent queries (native, fallback, distributed) on one engine under the race detector: no race report, every result == solo result",
     "hist": "histories of 10-50 operations (queries incl. failing/cancelled/fallback, appends, new series): result == fresh engine on current data; every earlier result == its snapshot after every operation",
+    "stream": "a monitoring wrapper on every operator edge of the real plan (via the verif-tagged child-slot hooks) checks at every Series/Next: stable series list, batch size, strictly increasing on-grid step timestamps with no step skipped, unique in-range sample IDs, |IDs| == |values|, no staleness marker, nothing after the end, no concurrent Next; plus Next-before-Series at the root gives the same result",
     "wf": "successful result is a well-formed PromQL value (sorted, distinct label sets, non-empty series, increasing on-grid timestamps, no stale marker)",
 }
 
@@ -388,6 +389,30 @@ def check_C19(tier, seed, replay=None):
                             [("wf", "", 60000), ("wf", "bin", 30000), ("wf", "func", 20000), ("wf", "deep", 20000)])
 
 
+def check_C01(tier, seed, replay=None):
+    return ref_family_check("C01", tier, seed, [("", 5000), ("deep", 2000), ("noties", 1500)],
+                            [("", 100000), ("deep", 40000), ("noties", 30000), ("func", 20000), ("bin", 20000), ("agg", 20000), ("range", 20000)])
+
+
+def check_C04(tier, seed, replay=None):
+    corr = _corr_generic("aggcases", "C04", "Agg.group_labels / assign_groups / aggregate (count table) + Select.select_step vs the engine "
+                         "on count by/without (labels) (selector)", 14, 120, shards_quick=16)
+    return ref_family_check("C04", tier, seed, [("agg", 4000)], [("agg", 80000), ("noties", 20000)], corr=corr)
+
+
+def check_C05(tier, seed, replay=None):
+    return ref_family_check("C05", tier, seed, [("bin", 4000)], [("bin", 80000), ("deep", 20000)])
+
+
+def check_C06(tier, seed, replay=None):
+    return ref_family_check("C06", tier, seed, [("func", 4000)], [("func", 80000), ("deep", 20000)])
+
+
+def check_C18(tier, seed, replay=None):
+    return ref_family_check("C18", tier, seed, [("stream", "", 1500), ("stream", "func", 800), ("stream", "agg", 800), ("stream", "bin", 600)],
+                            [("stream", "", 30000), ("stream", "func", 15000), ("stream", "agg", 15000), ("stream", "bin", 15000), ("stream", "range", 8000)])
+
+
 def check_C13(tier, seed, replay=None):
     corr = _corr_generic("lifecases", "C13", "Life.status_of / querier balance vs outcome class and open/close counts of faulted executions", 40, 300)
     return ref_family_check("C13", tier, seed, [("panic", "", 600), ("extreme", "", 300)],
@@ -418,5 +443,5 @@ def check_C20(tier, seed, replay=None):
     return ref_family_check("C20", tier, seed, [("hist", "", 400)], [("hist", "", 8000)])
 
 
-CHECKS = {"C08": check_C08, "C02": check_C02, "C03": check_C03, "C07": check_C07, "C11": check_C11, "C19": check_C19, "C16": check_C16, "C09": check_C09, "C10": check_C10, "C12": check_C12, "C13": check_C13, "C14": check_C14,
-          "C15": check_C15, "C17": check_C17, "C20": check_C20}
+CHECKS = {"C01": check_C01, "C04": check_C04, "C05": check_C05, "C06": check_C06, "C08": check_C08, "C02": check_C02, "C03": check_C03, "C07": check_C07, "C11": check_C11, "C19": check_C19, "C16": check_C16, "C09": check_C09, "C10": check_C10, "C12": check_C12, "C13": check_C13, "C14": check_C14,
+          "C15": check_C15, "C17": check_C17, "C18": check_C18, "C20": check_C20}
